@@ -102,4 +102,7 @@ DOCS = {
     "wild": (Wild, Wild(known=1, any=AnyElement(qname="{urn:c}foo", text="t", attributes={"k": "v"}, children=[AnyElement(qname="bar", text="u", tail="w")]), attrs={"{urn:d}e": "f"})),
     "mixed": (Mixed, Mixed(content=["hello ", AnyElement(qname="b", text="bold", tail=" world")])),
     "reqtext": (ReqText, ReqText(value="q", a=1)),
+    "wildknown": (Wild, Wild(known=2, any=Base(x=3))),
+    "unionmodels": (UnionModels, UnionModels(item=Textual(value="n/a"), items=[Numeric(value=1)])),
+    "dup": (Dup, Dup(code=1, label="l", alt_code="0042")),
 }
